@@ -206,6 +206,63 @@ func (r *SimReaderAt) ReadAt(p []byte, off int64) (int, error) {
 	return n, nil
 }
 
+// Ticker counts seam events (reads and writes reported to it) and closes a
+// channel when the count reaches At. Seam events may come from goroutines the
+// code under test started itself, concurrently: closures over local variables
+// would be harness races the detector reports below ice frames, so all state
+// lives here and is touched only by //go:norace methods (closures do not
+// inherit the pragma).
+type Ticker struct {
+	Events int
+	At     int // fire when Events == At (before counting that event); < 0: never
+	Ch     chan struct{}
+	Closed bool
+	sched  *Sched
+}
+
+func NewTicker(at int, ch chan struct{}, sched *Sched) *Ticker {
+	return &Ticker{At: at, Ch: ch, sched: sched}
+}
+
+//go:norace
+func (t *Ticker) Tick() {
+	if t.At >= 0 && t.Events == t.At && !t.Closed && t.Ch != nil {
+		t.Closed = true
+		close(t.Ch)
+		t.sched.note(evCancel, uint64(t.Events))
+	}
+	t.Events++
+}
+
+//go:norace
+func (t *Ticker) OnRead(int) { t.Tick() }
+
+//go:norace
+func (t *Ticker) OnWrite(int, int) { t.Tick() }
+
+//go:norace
+func (t *Ticker) Count() int { return t.Events }
+
+// GlobalFaultPlan decides read faults over ONE read index shared by several
+// readers (the inputs of a merge).
+type GlobalFaultPlan struct {
+	counter int
+	Fault   *ReadFault
+}
+
+//go:norace
+func (g *GlobalFaultPlan) Decide(int) (bool, int) {
+	idx := g.counter
+	g.counter++
+	if f := g.Fault; f != nil && idx >= f.From && (f.Count <= 0 || idx < f.From+f.Count) {
+		return true, f.Kind
+	}
+	return false, 0
+}
+
+//go:norace
+func (g *GlobalFaultPlan) Reads() int { return g.counter }
+
 // ---- simulated write side --------------------------------------------------------
 
 var ErrSimDiskFull = errors.New("simdisk: no space left on device")
